@@ -370,6 +370,7 @@ func run(t *testing.T, prop string, x any, cfg simrt.Config) *eng.Outcome {
 		}
 		simrt.Emit(simrt.Event{Kind: "task_end", I: tk.ID, N: ri})
 	}
+	cfg.Lockset = true // the pool's own fields: no field is written by one task and used by another without a common lock
 	res := simrt.Run(t, cfg, func() {
 		pool = flyt.NewWorkerPool(sc.Size)
 		submitAll := func(si int, ts []Task) {
@@ -524,6 +525,9 @@ func oracle(prop string, sc *Scn, eff, total int, roundOf map[int]int, late map[
 	}
 	if len(res.Panics) > 0 {
 		return viol("panic", "%v", res.Panics)
+	}
+	if len(res.Races) > 0 && prop == "C12" {
+		return viol("unsynchronised-access", "%s", res.Races[0])
 	}
 	if barrier != nil {
 		return barrier
